@@ -44,6 +44,16 @@ def step_checks(live, which, info, prev_model, rec, case, where):
     """run the predicates of property `which` on the current state; returns True if a violation was recorded"""
     bad = False
     if which == 'C02':
+        if live.gamma is not None and len(live.mesh.leaf_elements) % 3 == 0:
+            # the adaptive driver exports the mesh in physical coordinates in every loop
+            try:
+                with repo.quiet():
+                    live.mesh.gmsh(use_gamma=True)
+            except Exception as ex:
+                if exc_site(ex) == 'harness':
+                    raise
+                rec.violation('C02/%s/gmsh_use_gamma_exception' % where, {'error': repr(ex)}, case)
+                return True
         if info is not None and info['mode'] == 'validity':
             for clause, detail in validity_after(live, prev_model):
                 rec.violation('C02/%s/%s' % (where, clause), detail, case)
